@@ -253,3 +253,14 @@ Theorem C12_score_tables_match_source :
   /\ (forall d, HN.Model.Match.http_score d = Consts.src_score_lookup Consts.src_http_score_arms Consts.src_http_max_distance Consts.src_http_score_capped Consts.src_http_score_default d).
 Proof. split; [exact ConstTieMatch.tcp_score_tie | exact ConstTieMatch.http_score_tie]. Qed.
 Print Assumptions C12_score_tables_match_source.
+
+(* ---- side condition of C12_http_instance_zero on the shipped database, as a theorem about the file as it
+   is NOW (Gen/Bundled.v is regenerated from p0f.fp on every run): in each of the 99 bundled HTTP signatures
+   no optional header's name recurs later in its list (`opt_fresh`), so the class `optional_name_reused`
+   is empty on the bundled database ---- *)
+From HN Require Proofs.BundledHttpWf.
+Theorem C12_bundled_http_signatures_opt_fresh :
+  forallb HN.Spec.InstanceSpec.http_sig_wf_b BundledHttpWf.bundled_http_sig_values = true
+  /\ length BundledHttpWf.bundled_http_sig_values = 99%nat.
+Proof. exact BundledHttpWf.bundled_http_sigs_opt_fresh. Qed.
+Print Assumptions C12_bundled_http_signatures_opt_fresh.
